@@ -107,6 +107,26 @@ fn flush_be<E: Endianness, WW: WordWrite, WP: WriteParams>(
     Ok(to_flush)
 }
 
+/// Read `n_bits` ≤ `W::BITS` bits from a big-endian-ordered source as a word,
+/// at most 64 bits at a time (words can be wider than the 64 bits that
+/// [`BitRead::read_bits`] can return).
+#[cfg(not(feature = "no_copy_impls"))]
+#[inline(always)]
+fn read_bits_be<F: Endianness, R: BitRead<F>, W: Word>(
+    bit_read: &mut R,
+    n_bits: usize,
+) -> Result<W, R::Error>
+where
+    u64: CastableInto<W>,
+{
+    if n_bits <= 64 {
+        return Ok(bit_read.read_bits(n_bits)?.cast());
+    }
+    let high: W = bit_read.read_bits(n_bits - 64)?.cast();
+    let low: W = bit_read.read_bits(64)?.cast();
+    Ok((high << 64_usize) | low)
+}
+
 impl<WW: WordWrite, WP: WriteParams> BitWrite<BE> for BufBitWriter<BE, WW, WP>
 where
     u64: CastableInto<WW::Word>,
@@ -214,19 +234,15 @@ where
     ) -> Result<(), CopyError<R::Error, Self::Error>> {
         if n < self.space_left_in_buffer as u64 {
             self.buffer = (self.buffer << n)
-                | bit_read
-                    .read_bits(n as usize)
-                    .map_err(CopyError::ReadError)?
-                    .cast();
+                | read_bits_be::<F, R, WW::Word>(bit_read, n as usize)
+                    .map_err(CopyError::ReadError)?;
             self.space_left_in_buffer -= n as usize;
             return Ok(());
         }
 
         self.buffer = (self.buffer << (self.space_left_in_buffer - 1) << 1)
-            | bit_read
-                .read_bits(self.space_left_in_buffer)
-                .map_err(CopyError::ReadError)?
-                .cast();
+            | read_bits_be::<F, R, WW::Word>(bit_read, self.space_left_in_buffer)
+                .map_err(CopyError::ReadError)?;
         n -= self.space_left_in_buffer as u64;
 
         self.backend
@@ -236,20 +252,16 @@ where
         for _ in 0..n / WW::Word::BITS as u64 {
             self.backend
                 .write_word(
-                    bit_read
-                        .read_bits(WW::Word::BITS)
+                    read_bits_be::<F, R, WW::Word>(bit_read, WW::Word::BITS)
                         .map_err(CopyError::ReadError)?
-                        .cast()
                         .to_be(),
                 )
                 .map_err(CopyError::WriteError)?;
         }
 
         n %= WW::Word::BITS as u64;
-        self.buffer = bit_read
-            .read_bits(n as usize)
-            .map_err(CopyError::ReadError)?
-            .cast();
+        self.buffer =
+            read_bits_be::<F, R, WW::Word>(bit_read, n as usize).map_err(CopyError::ReadError)?;
         self.space_left_in_buffer = WW::Word::BITS - n as usize;
 
         Ok(())
@@ -274,6 +286,26 @@ fn flush_le<E: Endianness, WW: WordWrite, WP: WriteParams>(
     }
     buf_bit_writer.backend.flush()?;
     Ok(to_flush)
+}
+
+/// Read `n_bits` ≤ `W::BITS` bits from a little-endian-ordered source as a
+/// word, at most 64 bits at a time (words can be wider than the 64 bits that
+/// [`BitRead::read_bits`] can return).
+#[cfg(not(feature = "no_copy_impls"))]
+#[inline(always)]
+fn read_bits_le<F: Endianness, R: BitRead<F>, W: Word>(
+    bit_read: &mut R,
+    n_bits: usize,
+) -> Result<W, R::Error>
+where
+    u64: CastableInto<W>,
+{
+    if n_bits <= 64 {
+        return Ok(bit_read.read_bits(n_bits)?.cast());
+    }
+    let low: W = bit_read.read_bits(64)?.cast();
+    let high: W = bit_read.read_bits(n_bits - 64)?.cast();
+    Ok(low | (high << 64_usize))
 }
 
 impl<WW: WordWrite, WP: WriteParams> BitWrite<LE> for BufBitWriter<LE, WW, WP>
@@ -384,21 +416,17 @@ where
     ) -> Result<(), CopyError<R::Error, Self::Error>> {
         if n < self.space_left_in_buffer as u64 {
             self.buffer = (self.buffer >> n)
-                | (bit_read
-                    .read_bits(n as usize)
-                    .map_err(CopyError::ReadError)?)
-                .cast()
-                .rotate_right(n as u32);
+                | read_bits_le::<F, R, WW::Word>(bit_read, n as usize)
+                    .map_err(CopyError::ReadError)?
+                    .rotate_right(n as u32);
             self.space_left_in_buffer -= n as usize;
             return Ok(());
         }
 
         self.buffer = (self.buffer >> (self.space_left_in_buffer - 1) >> 1)
-            | (bit_read
-                .read_bits(self.space_left_in_buffer)
+            | read_bits_le::<F, R, WW::Word>(bit_read, self.space_left_in_buffer)
                 .map_err(CopyError::ReadError)?
-                .cast())
-            .rotate_right(self.space_left_in_buffer as u32);
+                .rotate_right(self.space_left_in_buffer as u32);
         n -= self.space_left_in_buffer as u64;
 
         self.backend
@@ -408,20 +436,16 @@ where
         for _ in 0..n / WW::Word::BITS as u64 {
             self.backend
                 .write_word(
-                    bit_read
-                        .read_bits(WW::Word::BITS)
+                    read_bits_le::<F, R, WW::Word>(bit_read, WW::Word::BITS)
                         .map_err(CopyError::ReadError)?
-                        .cast()
                         .to_le(),
                 )
                 .map_err(CopyError::WriteError)?;
         }
 
         n %= WW::Word::BITS as u64;
-        self.buffer = bit_read
-            .read_bits(n as usize)
+        self.buffer = read_bits_le::<F, R, WW::Word>(bit_read, n as usize)
             .map_err(CopyError::ReadError)?
-            .cast()
             .rotate_right(n as u32);
         self.space_left_in_buffer = WW::Word::BITS - n as usize;
 
